@@ -126,6 +126,9 @@ METHODS = {  # class -> method -> (method cb placement, result kind)
 }
 
 
+ROW_KEYS = ["match", "case", "type", "_", "self", "print", "x1", "a_b", "row2_", "Select", "_v"]
+
+
 class Q:
     """Builds (written, expected emitted, expected events) together."""
 
@@ -197,8 +200,8 @@ class Q:
             b, bx = self.scalar(cls, v, d, ev)
             return gen.binop(ast.Add, a, b), gen.binop(ast.Add, ax, bx)
         opts = ["pt", "fn", "plain", "binop", "param", "called"] if cls in ("Track", "SubTrack") else \
-            ["pt", "fn", "binop", "nestfirst", "nestcount", "dict", "called"] if cls == "Jet" else \
-            ["met", "fn", "nestfirst", "nestcount", "tuple", "lead", "lead", "called"]
+            ["pt", "fn", "binop", "nestfirst", "nestcount", "dict", "called", "row"] if cls == "Jet" else \
+            ["met", "fn", "nestfirst", "nestcount", "tuple", "lead", "lead", "called", "row"]
         k = r.choice(opts)
         if k in ("pt", "met"):
             w, x, _ = self.mcall(cls, N(v), N(v), k, ev)
@@ -243,6 +246,19 @@ class Q:
             return w, out
         coll, collx, sub = self.collection(cls, v, d, ev)
         kind = self.kind
+        if k == "row" and kind == "iter":
+            # a dictionary row between two operators: the parameter of the second lambda is a record, its fields -
+            # whatever legal identifier names them, soft keywords included - are typed, so callbacks fire on them
+            key = r.choice(ROW_KEYS)
+            nv, rv = r.choice(["t", "q"]), r.choice(["r", "row"])
+            row = lambda e: gen.dct([(C(key), e), (C("o"), C(1))])  # noqa
+            acc = (lambda: A(N(rv), key)) if r.random() < 0.6 else (lambda: gen.sub(N(rv), C(key)))
+            self.depth = max(self.depth, d + 1)
+            name = r.choice(sorted(m for m, (_, res) in METHODS[sub].items() if res == "float"))
+            w2, x2, _ = self.mcall(sub, acc(), acc(), name, ev)
+            c2 = call(A(call(A(coll, "Select"), [lam(nv, row(N(nv)))]), "Select"), [lam(rv, w2)])
+            c2x = call(A(call(A(collx, "Select"), [lam(nv, row(N(nv)))]), "Select"), [lam(rv, x2)])
+            return call(A(c2, "First"), []), call(A(c2x, "First"), [])
         if k == "nestcount":
             body_ev = []
             nv = r.choice(["t", v if not any(v == o[0] for o in self.outer) else "t", "q"])   # a tracked parameter is never hidden
